@@ -30,9 +30,16 @@ def shape_units(tier):
     us = []
     for sid in schemas:
         for sh in shapes:
+            if tier == 'quick' and sid in ('S13', 'S9', 'S7') and len(sh) == 3 and 'e' not in sh:
+                # the three most expensive schemas: C02's quick tier explores exactly these units (same
+                # schema, shape and token lengths) and asserts accept/reject AND the value tree against the
+                # same oracle - they are not run a second time here
+                continue
             us.append({'schema': sid, 'shape': sh, 'nlen': 2, 'vlen': 1})
         # one-character names (incl. '*' and '+') on the shapes that have a named header
         for sh in [s for s in shapes if ('o' in s or 'e' in s) and len(s) <= 3]:
+            if tier == 'quick' and len(sh) == 3 and sum(sh.count(c) for c in 'oe') > 2:
+                continue          # three one-character names at once: thorough tier only
             us.append({'schema': sid, 'shape': sh, 'nlen': 1, 'vlen': 1})
         for sh in ('k', 'kk', 'ukc'):
             us.append({'schema': sid, 'shape': sh, 'nlen': 2, 'vlen': 2})
